@@ -734,11 +734,11 @@ def check_c18(tier, seed):
     samples = 512 if tier == "quick" else 20000
     crash_viols = []
     try:
-        det = selftest_determinism("sse2-rel", seed, [["c18p", "--samples", 8], ["c18m", "--rounds", 1], ["c18i", "--samples", 20]], seeds=2 if tier == "quick" else 8)
+        det = selftest_determinism("sse2-rel", seed, [["c18p", "--samples", 8], ["c18m", "--rounds", 1], ["c18i", "--samples", 20], ["c18chain", "--runs", 20000]], seeds=2 if tier == "quick" else 8)
     except CrashFound as e:
         det = {"aborted_by_memory_fault": e.what}
         crash_viols.append(crash_violation(e, seed, "Guarded"))
-    results_m, results_p, results_i, results_c = [], [], [], []
+    results_m, results_p, results_i, results_c, results_ch = [], [], [], [], []
     for c in cfgs:
         try:
             results_m.append((c, run_sim(c, ["c18m", "--seed", seed, "--rounds", rounds])))
@@ -747,6 +747,8 @@ def check_c18(tier, seed):
         results_p.append((c, run_sim(c, ["c18p", "--seed", seed, "--samples", samples if c != "sse2-dbg" else max(8, samples // 2), "--workers", NCPU])))
         results_i.append((c, run_sim(c, ["c18i", "--seed", seed, "--samples", 300 if tier == "quick" else 20000, "--workers", NCPU])))
         results_c.append((c, run_sim(c, ["conv", "--seed", seed, "--rounds", 200 if tier == "quick" else 20000])))
+        nchain = (2000000 if tier == "quick" else 60000000) // (8 if c == "sse2-dbg" else 1)
+        results_ch.append((c, run_sim(c, ["c18chain", "--seed", seed, "--runs", nchain, "--workers", NCPU])))
     # math-backend variant: only the hostile sweep depends on it
     results_p.append(("libm", run_sim("libm", ["c18p", "--seed", seed, "--samples", samples, "--workers", NCPU])))
     viols, fired, effective, probes = list(crash_viols), {}, {}, {}
@@ -754,6 +756,7 @@ def check_c18(tier, seed):
     evals += collect(results_p, viols, fired, effective, probes)
     evals += collect(results_i, viols, fired, effective, probes)
     evals += collect(results_c, viols, fired, effective, probes)
+    evals += collect(results_ch, viols, fired, effective, probes)
     monitors = {}
     # machine-level monitors: Miri (quick: subset of lengths/offsets; thorough: full product, 3 backends), ASan (thorough)
     miri_cfgs = ["miri"] if tier == "quick" else ["miri", "miri-scalar", "miri-coresimd"]
@@ -845,6 +848,8 @@ def check_c18(tier, seed):
         "memory_cases_per_config": {c: r["evaluations"] for c, r in results_m},
         "memory_extra": refm["extra"],
         "hostile_calls_per_config": {c: r["evaluations"] for c, r in results_p},
+        "composed_call_chains_per_config": {c: r["evaluations"] for c, r in results_ch},
+        "composed_call_steps_per_config": {c: r["extra"]["steps_executed"] for c, r in results_ch},
         "conversion_workload_calls_per_config": {c: r["evaluations"] for c, r in results_c},
         "integer_operator_cases_per_config": {c: r["evaluations"] for c, r in results_i},
         "integer_operators": results_i[0][1]["extra"]["integer_ops"],
